@@ -20,6 +20,10 @@ def model_request(fi, op):
         return f"{geo} {k} {op[1]}"
     if k == 'vol':
         return f"{geo} vol"
+    if k in ('ilno', 'xlno') and not fi.is2d and fi.mask is None:
+        ax = fi.il if k == 'ilno' else fi.xl
+        step = int(ax[1] - ax[0]) if len(ax) > 1 else 1
+        return f"{geo} {k} {int(ax[0])} {step} {int(op[1])}"
     if k == 'sub':
         return f"{geo} sub " + ' '.join(str(v) for v in op[1:7])
     if k == 'subp':
@@ -274,7 +278,7 @@ def check_ops(ctx, model, sess, ops, props=('C02', 'C07', 'C14'), cold=True, tag
         # ---- K: model vs implementation
         if model is not None:
             req = model_request(fi, op)
-            if req is not None and op[0] not in ('ilno', 'xlno', 'zsc', 'trc'):
+            if req is not None and op[0] not in ('zsc', 'trc'):
                 ctx.stats['corr_requests'] += 1
                 m = parse_model(model.ask(req))
                 i = impl_answer(got, log, sess.data_start)
